@@ -22,12 +22,12 @@ struct Sub {
 };
 inline pt::PortsProxy Sub::ports;
 struct Root {
-  int preset = 0; int ri = 0, rj = 0; float rf = 0; bool rt = false; int ro = 0; char rc = 0; char rs[200] = {0}; int ra[12] = {0}; float rfa[4] = {0, 0, 0, 0}; bool en = true; bool vp[3] = {false, false, false}; int32_t rb[8] = {0};
+  int preset = 0; int ri = 0, rj = 0; float rf = 0; bool rt = false; int ro = 0; char rc = 0; char rs[200] = {0}; int ra[12] = {0}; float rfa[4] = {0, 0, 0, 0}; bool en = true; bool vp[3] = {false, false, false}; int32_t rb[8] = {0}; bool rta[4] = {false, false, false, false};
   Sub sub; Sub *psub = nullptr; Sub subs[3];
 };
 
-enum Field { PRESET, RI, RJ, RF, RT, RO, RC, RS, RA, RFA, EN, VP, RB, NROOT, SI = 20, SF, ST, SO, SS, SA, ON, SJ, SV, NSUBEND };
-enum VKind { K_INT, K_FLOAT, K_BOOL, K_OPT, K_CHAR, K_STR, K_AINT, K_AFLOAT, K_ABOOL, K_BLOBI };   // K_ABOOL: 'vp#3/on' (array index in the middle of the name)
+enum Field { PRESET, RI, RJ, RF, RT, RO, RC, RS, RA, RFA, EN, VP, RB, RTA, NROOT, SI = 20, SF, ST, SO, SS, SA, ON, SJ, SV, NSUBEND };
+enum VKind { K_INT, K_FLOAT, K_BOOL, K_OPT, K_CHAR, K_STR, K_AINT, K_AFLOAT, K_ABOOL, K_BLOBI, K_ATOG };   // K_ABOOL: 'vp#3/on' (array index in the middle of the name)
 inline VKind kind_of(int f) {
   switch (f) {
     case PRESET: case RI: case RJ: case SI: case SJ: return K_INT;
@@ -38,6 +38,7 @@ inline VKind kind_of(int f) {
     case RS: case SS: return K_STR;
     case RA: case SA: return K_AINT;
     case VP: case SV: return K_ABOOL;
+    case RTA: return K_ATOG;   // "rta#4::T:F": a toggle array with the index at the end (saved as one array line)
     case RB: return K_BLOBI;   // "rb::b" with rBlobType(i): 8 ints exchanged as one blob, saved as an array
     default: return K_AFLOAT;
   }
@@ -50,14 +51,14 @@ inline Mode &mode() { static Mode m; return m; }
 inline std::string top() { return mode().nested ? "/top" : ""; }
 inline const char *name_of(int f) {
   if (mode().short_names) { if (f == 0) return "q"; if (f == 1) return "i"; if (f == 4) return "t"; if (f == 10) return "e"; }
-  static const char *r[] = {"preset", "ri", "rj", "rf", "rt", "ro", "rc", "rs", "ra", "rfa", "en", "vp", "rb"};
+  static const char *r[] = {"preset", "ri", "rj", "rf", "rt", "ro", "rc", "rs", "ra", "rfa", "en", "vp", "rb", "rta"};
   static const char *s[] = {"si", "sf", "st", "so", "ss", "sa", "on", "sj", "sv"};
   return f < NROOT ? r[f] : s[f - SI];
 }
 inline const char *spec_of(int f) {
   switch (kind_of(f)) {
     case K_INT: return "::i"; case K_FLOAT: return "::f"; case K_BOOL: return "::T:F"; case K_OPT: return "::i:c:S"; case K_CHAR: return "::c";
-    case K_STR: return "::s"; case K_AINT: return "#12::i"; case K_ABOOL: return "#3/on::T:F"; case K_BLOBI: return "::b"; default: return "#4::f";
+    case K_STR: return "::s"; case K_AINT: return "#12::i"; case K_ABOOL: return "#3/on::T:F"; case K_BLOBI: return "::b"; case K_ATOG: return "#4::T:F"; default: return "#4::f";
   }
 }
 
@@ -72,7 +73,7 @@ struct Val {
     switch (k) {
       case K_FLOAT: return (float)f == (float)o.f;
       case K_STR: return s == o.s;
-      case K_AINT: case K_ABOOL: case K_BLOBI: return ai == o.ai;
+      case K_AINT: case K_ABOOL: case K_BLOBI: case K_ATOG: return ai == o.ai;
       case K_AFLOAT: { if (af.size() != o.af.size()) return false; for (size_t k2 = 0; k2 < af.size(); k2++) if ((float)af[k2] != (float)o.af[k2]) return false; return true; }
       default: return i == o.i;
     }
@@ -82,7 +83,7 @@ struct Val {
     switch (k) {
       case K_FLOAT: snprintf(b, sizeof b, "%g", f); return b;
       case K_STR: return "\"" + vf::esc(s) + "\"";
-      case K_AINT: case K_ABOOL: case K_BLOBI: { std::string o = "["; for (auto x : ai) o += std::to_string(x) + " "; return o + "]"; }
+      case K_AINT: case K_ABOOL: case K_BLOBI: case K_ATOG: { std::string o = "["; for (auto x : ai) o += std::to_string(x) + " "; return o + "]"; }
       case K_AFLOAT: { std::string o = "["; for (auto x : af) { snprintf(b, sizeof b, "%g ", x); o += b; } return o + "]"; }
       default: return std::to_string(i);
     }
@@ -171,7 +172,7 @@ inline std::string spell(const Val &v, const PSpec &p) {
     case K_OPT: return p.opts[(size_t)v.i];
     case K_CHAR: return std::string("'") + (char)v.i + "'";
     case K_STR: return pretty_str(v.s);
-    case K_ABOOL: { std::string o = "["; for (size_t k = 0; k < v.ai.size(); k++) o += std::string(k ? " " : "") + (v.ai[k] ? "true" : "false"); return o + "]"; }
+    case K_ABOOL: case K_ATOG: { std::string o = "["; for (size_t k = 0; k < v.ai.size(); k++) o += std::string(k ? " " : "") + (v.ai[k] ? "true" : "false"); return o + "]"; }
     case K_AINT: case K_BLOBI: {
       bool all = true; for (auto x : v.ai) if (x != v.ai[0]) all = false;
       if (all) return "[" + std::to_string(v.ai.size()) + "x" + std::to_string(v.ai[0]) + "]";
@@ -217,6 +218,7 @@ inline cb_t field_cb(int f) {
     case RFA: return rArrayFCb(rfa);
     case EN: return rToggleCb(en);
     case VP: return rArrayTCb(vp);
+    case RTA: return rArrayTCb(rta);
     case RB: return [](const char *msg, rtosc::RtData &data) {   // blob parameter: query replies the 32 bytes; a blob sets its leading elements (savefiles omit trailing elements that equal the default)
       ga::Root *obj = (ga::Root *)data.obj;
       const char *args = rtosc_argument_string(msg);
@@ -253,7 +255,7 @@ inline Val get_root(const Root &r, int f) {
   Val v;
   switch (f) {
     case PRESET: v.i = r.preset; break; case RI: v.i = r.ri; break; case RJ: v.i = r.rj; break; case RF: v.f = r.rf; break; case RT: v.i = r.rt; break; case RO: v.i = r.ro; break;
-    case RC: v.i = r.rc; break; case RS: v.s = r.rs; break; case RA: v.ai.assign(r.ra, r.ra + 12); break; case RFA: v.af.assign(r.rfa, r.rfa + 4); break; case EN: v.i = r.en; break; case VP: for (int k = 0; k < 3; k++) v.ai.push_back(r.vp[k]); break; case RB: v.ai.assign(r.rb, r.rb + 8); break;
+    case RC: v.i = r.rc; break; case RS: v.s = r.rs; break; case RA: v.ai.assign(r.ra, r.ra + 12); break; case RFA: v.af.assign(r.rfa, r.rfa + 4); break; case EN: v.i = r.en; break; case VP: for (int k = 0; k < 3; k++) v.ai.push_back(r.vp[k]); break; case RB: v.ai.assign(r.rb, r.rb + 8); break; case RTA: for (int k = 0; k < 4; k++) v.ai.push_back(r.rta[k]); break;
   }
   return v;
 }
@@ -261,7 +263,7 @@ inline void set_root(Root &r, int f, const Val &v) {
   switch (f) {
     case PRESET: r.preset = (int)v.i; break; case RI: r.ri = (int)v.i; break; case RJ: r.rj = (int)v.i; break; case RF: r.rf = (float)v.f; break; case RT: r.rt = v.i != 0; break; case RO: r.ro = (int)v.i; break;
     case RC: r.rc = (char)v.i; break; case RS: memset(r.rs, 0, 200); memcpy(r.rs, v.s.data(), std::min<size_t>(199, v.s.size())); break;
-    case RA: for (size_t k = 0; k < 12; k++) r.ra[k] = k < v.ai.size() ? (int)v.ai[k] : 0; break; case RFA: for (int k = 0; k < 4; k++) r.rfa[k] = (float)v.af[(size_t)k]; break; case EN: r.en = v.i != 0; break; case VP: for (size_t k = 0; k < 3 && k < v.ai.size(); k++) r.vp[k] = v.ai[k] != 0; break; case RB: for (size_t k = 0; k < 8; k++) r.rb[k] = k < v.ai.size() ? (int32_t)v.ai[k] : 0; break;
+    case RA: for (size_t k = 0; k < 12; k++) r.ra[k] = k < v.ai.size() ? (int)v.ai[k] : 0; break; case RFA: for (int k = 0; k < 4; k++) r.rfa[k] = (float)v.af[(size_t)k]; break; case EN: r.en = v.i != 0; break; case VP: for (size_t k = 0; k < 3 && k < v.ai.size(); k++) r.vp[k] = v.ai[k] != 0; break; case RB: for (size_t k = 0; k < 8; k++) r.rb[k] = k < v.ai.size() ? (int32_t)v.ai[k] : 0; break; case RTA: for (size_t k = 0; k < 4; k++) r.rta[k] = k < v.ai.size() && v.ai[k] != 0; break;
   }
 }
 inline Val get_sub(const Sub &s, int f) {
@@ -427,6 +429,7 @@ inline Val gen_val(int f, const PSpec &p) {
       break;
     }
     case K_ABOOL: for (int k = 0; k < 3; k++) v.ai.push_back(vf::coin()); break;
+    case K_ATOG: { int st = vf::pickn(4); for (int k = 0; k < 4; k++) v.ai.push_back(st == 0 ? 0 : st == 1 ? 1 : st == 2 ? (k == 0) : (int)vf::coin()); break; }   // all false, all true, [true false false false], mixed
     case K_BLOBI: {
       int base = vf::pick<int>(-100, 100), style = vf::pickn(5), cut = vf::pick<int>(2, 6), base2 = vf::pick<int>(-100, 100), st = vf::oneof<int>({1, -1, 2, 0});
       for (int k = 0; k < 8; k++) v.ai.push_back(style == 0 ? base : style == 1 ? base + st * k : style == 2 ? (k < cut ? base : base2 + st * (k - cut)) : style == 3 ? (vf::chance(70) ? base : vf::pick<int>(-100, 100)) : vf::pick<int>(-1000, 1000));
@@ -470,6 +473,7 @@ inline AppSpec gen_spec() {
   for (int f = RI; f < EN; f++) if (maybe(55)) s.root.push_back(gen_pspec(f, presets));
   if (maybe(35)) s.root.push_back(gen_pspec(VP, false));
   if (maybe(30)) s.root.push_back(gen_pspec(RB, presets));
+  if (maybe(35)) s.root.push_back(gen_pspec(RTA, presets));
   s.has_sub = maybe(75); s.has_psub = maybe(40); s.has_subs = maybe(40); s.psub_null = !rich && vf::chance(40);
   bool en = (s.has_sub || s.has_psub || s.has_subs) && vf::chance(50);
   if (en) {
@@ -494,7 +498,7 @@ inline AppSpec gen_spec() {
 }
 
 // index for array-valued fields (-1 for scalars)
-inline int gen_idx(int field) { switch (kind_of(field)) { case K_AINT: return vf::pickn(12); case K_AFLOAT: return vf::pickn(4); case K_ABOOL: return vf::pickn(3); default: return -1; } }
+inline int gen_idx(int field) { switch (kind_of(field)) { case K_AINT: return vf::pickn(12); case K_AFLOAT: return vf::pickn(4); case K_ABOOL: return vf::pickn(3); case K_ATOG: return vf::pickn(4); default: return -1; } }
 // ---- one parameter message
 struct Set {
   int target = 0;   // 0 root, 1 sub, 2 psub, 3.. subs[target-3]
@@ -517,6 +521,7 @@ inline std::string encode_set(const Set &s, const PSpec &p) {
     case K_CHAR: tags = "c"; a.t = 'c'; a.u = (uint32_t)s.v.i; break;
     case K_STR: tags = "s"; a.t = 's'; a.s = s.v.s; break;
     case K_ABOOL: addr += std::to_string(s.idx) + "/on"; tags = s.v.ai[(size_t)s.idx] ? "T" : "F"; a.t = tags[0]; break;
+    case K_ATOG: addr += std::to_string(s.idx); tags = s.v.ai[(size_t)s.idx] ? "T" : "F"; a.t = tags[0]; break;
     case K_BLOBI: { tags = "b"; a.t = 'b'; for (size_t k = 0; k < 8; k++) { int32_t x = k < s.v.ai.size() ? (int32_t)s.v.ai[k] : 0; a.s.append((const char *)&x, 4); } break; }
     case K_AINT: addr += std::to_string(s.idx); tags = "i"; a.t = 'i'; a.u = (uint32_t)(int32_t)s.v.ai[(size_t)s.idx]; break;
     default: { addr += std::to_string(s.idx); tags = "f"; a.t = 'f'; float f = (float)s.v.af[(size_t)s.idx]; uint32_t u; memcpy(&u, &f, 4); a.u = u; break; }
@@ -561,7 +566,7 @@ inline std::vector<Set> gen_history(const AppSpec &spec, int maxlen) {
 inline void model_apply(App &m, const Set &s) {
   if (s.target == 0) {
     Val cur = get_root(m.root, s.field);
-    if (s.idx >= 0) { if (kind_of(s.field) == K_AINT || kind_of(s.field) == K_ABOOL) cur.ai[(size_t)s.idx] = s.v.ai[(size_t)s.idx]; else cur.af[(size_t)s.idx] = s.v.af[(size_t)s.idx]; }
+    if (s.idx >= 0) { if (kind_of(s.field) == K_AINT || kind_of(s.field) == K_ABOOL || kind_of(s.field) == K_ATOG) cur.ai[(size_t)s.idx] = s.v.ai[(size_t)s.idx]; else cur.af[(size_t)s.idx] = s.v.af[(size_t)s.idx]; }
     else cur = s.v;
     bool rt_changes = s.field == RT && get_root(m.root, RT).i != cur.i;
     bool en_changes = s.field == EN && get_root(m.root, EN).i != cur.i;
